@@ -70,6 +70,13 @@ def plan(rng, idx, tier):
     start = lc.plan_start(rng.sub('start'), spec)
     mixname = rng.weighted([('markers', 5), ('edits', 4), ('illformed', 2)])
     n = 1 + rng.randrange(12)
+    if idx % 300 in (101, 102, 103):
+        # sizes beyond the usual: thresholds in nesting depth, branches per node, rounds of the fallback loop
+        sr = rng.sub('scale')
+        start = [{'kind': 'deep_chain', 'n': sr.pick([105, 130, 160])},
+                 {'kind': 'wide_node', 'n': sr.pick([34, 48, 70]), 'clash': sr.chance(0.5)},
+                 {'kind': 'clash_chain', 'n': sr.pick([8, 14, 20])}][idx % 300 - 101]
+        mixname, n = 'markers', sr.randrange(4)
     ops = lc.plan_ops(rng.sub('ops'), n, MIXES[mixname])
     return {'property': ID, 'model': spec, 'start': start, 'mix': mixname, 'ops': ops,
             'indent': rng.pick([-1, None, 0, 2]), 'compact': rng.chance(0.2)}
@@ -235,6 +242,10 @@ def shrink(trace):
             s2 = dict(st)
             s2.pop('top')
             yield with_path(trace, ['start'], s2)
+    elif st['kind'] in ('deep_chain', 'wide_node', 'clash_chain'):
+        for smaller in (st['n'] // 2, st['n'] - 10, st['n'] - 1):
+            if 2 <= smaller < st['n']:
+                yield with_path(trace, ['start', 'n'], smaller)
     else:
         from .c09 import _tree_simplifications, _drop_branch
         for path, i in _tree_simplifications(st['tree']):
